@@ -37,7 +37,7 @@ enum G { B(TimerGuard<'static>), O(OwnedTimerGuard), Gone }
 /// Runs a stopwatch history on the real implementation. While a borrowed guard is alive the stopwatch
 /// itself cannot be touched (Rust's borrow rule; the generator respects it), so those positions are
 /// reported as -1 ("not observable"), exactly as the model's codec masks them.
-fn exec_stopwatch(ops: &[Op]) -> Sx {
+fn exec_stopwatch(ops: &[Op], unwinding: bool) -> Sx {
     let ts = ManuallyAdvancedTimeSource::at_time(UNIX_EPOCH);
     let sw: *mut Stopwatch = Box::into_raw(Box::new(Stopwatch::new_from_timesource(TimeSource::custom(ts.clone()))));
     let mut guards: Vec<G> = vec![];
@@ -63,10 +63,10 @@ fn exec_stopwatch(ops: &[Op]) -> Sx {
                     let g = std::mem::replace(&mut guards[i], G::Gone);
                     if borrowed == Some(i) { borrowed = None; }
                     match (g, *o) {
-                        (G::B(g), Op::Stop(_)) => { if i % 2 == 0 { g.stop(); } else { drop(g); } }
+                        (G::B(g), Op::Stop(_)) => { if i % 2 == 0 && !unwinding { g.stop(); } else { crate::common::drop_placed(g, unwinding); } }
                         (G::B(g), Op::Overwrite(_)) => g.overwrite(),
                         (G::B(g), Op::Discard(_)) => g.discard(),
-                        (G::O(g), Op::Stop(_)) => { if i % 2 == 0 { g.stop(); } else { drop(g); } }
+                        (G::O(g), Op::Stop(_)) => { if i % 2 == 0 && !unwinding { g.stop(); } else { crate::common::drop_placed(g, unwinding); } }
                         (G::O(g), Op::Overwrite(_)) => g.overwrite(),
                         (G::O(g), Op::Discard(_)) => g.discard(),
                         _ => {}
@@ -151,7 +151,9 @@ pub fn exec(case: &Sx) -> (Sx, bool) {
         0 => {
             let ops: Vec<Op> = case.arg(0).list().iter().map(dec_op).collect();
             let nontrivial = ops.iter().filter(|o| matches!(o, Op::Stop(_) | Op::Overwrite(_) | Op::Discard(_))).count() >= 1;
-            (exec_stopwatch(&ops), nontrivial)
+            // second argument (not read by the model): every guard that is stopped is dropped by an unwinding frame
+            let unwinding = case.list().len() > 2 && case.arg(1).num() != 0;
+            (exec_stopwatch(&ops, unwinding), nontrivial)
         }
         _ => {
             let ops: Vec<(bool, u64)> = case.arg(1).list().iter().map(|x| (x.tag() == 1, x.arg(0).num() as u64)).collect();
@@ -233,6 +235,11 @@ pub fn run(ctx: &Ctx) {
     for ops in &all {
         out.count(&format!("exhaustive_len_{}", ops.len()));
         emit(&mut out, sx::tag(0, vec![Sx::L(ops.iter().map(enc_op).collect())]));
+    }
+    // the same sequences with every stopped guard dropped by a frame that is unwinding from a panic
+    for ops in all.iter().filter(|o| o.iter().any(|x| matches!(x, Op::Stop(_)))).step_by(if ctx.tier_thorough { 1 } else { 2 }) {
+        out.count("stopwatch_guard_drops_during_unwind");
+        emit(&mut out, sx::tag(0, vec![Sx::L(ops.iter().map(enc_op).collect()), sx::boolean(true)]));
     }
     let mut rng = Rng::new(ctx.seed);
     let nrand = if ctx.tier_thorough { 20000 } else { 2000 };
